@@ -67,19 +67,26 @@ package eval
 //@   pure
 //@   requires [divisor-nonzero] rhs.GetI() != 0
 //@   ensures [value] freshI(result, lhs.GetI() % rhs.GetI())
+// Ordering and equality of integers are decided on the 64-bit values themselves (machine arithmetic: a comparison
+// computed through a difference would wrap for operands far apart).
 //@ func gtInt64
+//@   arith wrap64
 //@   pure
 //@   ensures [value] freshB(result, lhs.GetI() > rhs.GetI())
 //@ func ltInt64
+//@   arith wrap64
 //@   pure
 //@   ensures [value] freshB(result, lhs.GetI() < rhs.GetI())
 //@ func geInt64
+//@   arith wrap64
 //@   pure
 //@   ensures [value] freshB(result, lhs.GetI() >= rhs.GetI())
 //@ func leInt64
+//@   arith wrap64
 //@   pure
 //@   ensures [value] freshB(result, lhs.GetI() <= rhs.GetI())
 //@ func cmpInt
+//@   arith wrap64
 //@   pure
 //@   ensures [value] freshB(result, lhs.GetI() == rhs.GetI())
 //@ func addString
